@@ -38,6 +38,8 @@ enum H {
     Fold,
     Par,
     ParRev,
+    /// serial `rev().collect()` (token `R`)
+    Rev,
     Next(Box<H>),
     Back(Box<H>),
     Len(Box<H>),
@@ -52,6 +54,7 @@ impl H {
             H::Fold => out.push("f".into()),
             H::Par => out.push("P".into()),
             H::ParRev => out.push("Q".into()),
+            H::Rev => out.push("R".into()),
             H::Next(r) => {
                 out.push("n".into());
                 r.tokens(out)
@@ -83,6 +86,7 @@ impl H {
             "f" => H::Fold,
             "P" => H::Par,
             "Q" => H::ParRev,
+            "R" => H::Rev,
             "n" => H::Next(Box::new(H::parse(toks))),
             "b" => H::Back(Box::new(H::parse(toks))),
             "l" => H::Len(Box::new(H::parse(toks))),
@@ -104,7 +108,7 @@ impl H {
     fn ops(&self) -> usize {
         match self {
             H::Drop => 0,
-            H::Fold | H::Par | H::ParRev => 1,
+            H::Fold | H::Par | H::ParRev | H::Rev => 1,
             H::Next(r) | H::Back(r) | H::Len(r) | H::Nth(_, r) => 1 + r.ops(),
             H::Split(_, a, b) => 1 + a.ops() + b.ops(),
         }
@@ -146,6 +150,8 @@ impl H {
 enum Fam {
     Iter,
     Lanes,
+    /// one `Lane`/`LaneMut` (the `p2`-th item of `lanes(p1)`), consumed element by element
+    Lane,
     Inner,
     Axis,
     Chunks,
@@ -156,6 +162,7 @@ impl Fam {
         match self {
             Fam::Iter => "iter",
             Fam::Lanes => "lanes",
+            Fam::Lane => "lane",
             Fam::Inner => "inner",
             Fam::Axis => "axis",
             Fam::Chunks => "chunks",
@@ -200,6 +207,7 @@ fn parse_case(line: &str) -> Case {
     let fam = match base {
         "iter" => Fam::Iter,
         "lanes" => Fam::Lanes,
+        "lane" => Fam::Lane,
         "inner" => Fam::Inner,
         "axis" => Fam::Axis,
         "chunks" => Fam::Chunks,
@@ -325,6 +333,11 @@ where
             let s: Vec<String> = v.into_iter().map(|x| fmt(x)).collect();
             obs.push(format!("Q[{}]", s.join(";")));
         }
+        H::Rev => {
+            let v: Vec<<I as Iterator>::Item> = it.rev().collect();
+            let s: Vec<String> = v.into_iter().map(|x| fmt(x)).collect();
+            obs.push(format!("R[{}]", s.join(";")));
+        }
         H::Next(r) => {
             let x = it.next();
             obs.push(opt(x.map(|x| fmt(x))));
@@ -352,6 +365,48 @@ where
     }
 }
 
+/// Run a history without `split_at`/rayon on a plain double-ended exact-size iterator
+/// (`Lane`, `LaneMut`).
+fn run_simple<I>(mut it: I, h: &H, obs: &mut Vec<String>, fmt: &mut dyn FnMut(I::Item) -> String)
+where
+    I: DoubleEndedIterator + ExactSizeIterator,
+{
+    match h {
+        H::Drop => drop(it),
+        H::Fold => {
+            let v = it.fold(Vec::new(), |mut v: Vec<String>, x| {
+                v.push(fmt(x));
+                v
+            });
+            obs.push(format!("F[{}]", v.join(";")));
+        }
+        H::Rev => {
+            let v: Vec<String> = it.rev().map(|x| fmt(x)).collect();
+            obs.push(format!("R[{}]", v.join(";")));
+        }
+        H::Next(r) => {
+            let x = it.next();
+            obs.push(opt(x.map(|x| fmt(x))));
+            run_simple(it, r, obs, fmt)
+        }
+        H::Back(r) => {
+            let x = it.next_back();
+            obs.push(opt(x.map(|x| fmt(x))));
+            run_simple(it, r, obs, fmt)
+        }
+        H::Len(r) => {
+            obs.push(format!("L{}", ExactSizeIterator::len(&it)));
+            run_simple(it, r, obs, fmt)
+        }
+        H::Nth(k, r) => {
+            let x = it.nth(*k);
+            obs.push(opt(x.map(|x| fmt(x))));
+            run_simple(it, r, obs, fmt)
+        }
+        H::Par | H::ParRev | H::Split(..) => unreachable!("lane histories have no split/rayon ops"),
+    }
+}
+
 /// Run the case on the real crate. `data` is the (private copy of the) storage.
 fn run_real(c: &Case, mutable: bool, data: &mut [u32], obs: &mut Vec<String>, offs: &mut Vec<u32>) {
     let (p1, p2) = (c.p1, c.p2);
@@ -361,6 +416,10 @@ fn run_real(c: &Case, mutable: bool, data: &mut [u32], obs: &mut Vec<String>, of
         match c.fam {
             Fam::Iter => run(view.iter(), &c.h, obs, &mut |x: &u32| x.to_string()),
             Fam::Lanes => run(view.lanes(p1), &c.h, obs, &mut |l| fmt_lane(&l)),
+            Fam::Lane => match view.lanes(p1).nth(p2) {
+                None => obs.push("nolane".to_string()),
+                Some(lane) => run_simple(lane, &c.h, obs, &mut |x: &u32| x.to_string()),
+            },
             Fam::Inner => run(view.inner_iter_dyn(p1), &c.h, obs, &mut |v| fmt_view(&v, None)),
             Fam::Axis => run(view.axis_iter(p1), &c.h, obs, &mut |v| fmt_view(&v, None)),
             Fam::Chunks => run(view.axis_chunks(p1, p2), &c.h, obs, &mut |v| fmt_view(&v, None)),
@@ -374,6 +433,13 @@ fn run_real(c: &Case, mutable: bool, data: &mut [u32], obs: &mut Vec<String>, of
                 x.to_string()
             }),
             Fam::Lanes => run(vm.lanes_mut(p1), &c.h, obs, &mut |l| fmt_lane_mut(l, offs)),
+            Fam::Lane => match vm.lanes_mut(p1).nth(p2) {
+                None => obs.push("nolane".to_string()),
+                Some(lane) => run_simple(lane, &c.h, obs, &mut |x: &mut u32| {
+                    offs.push(*x);
+                    x.to_string()
+                }),
+            },
             Fam::Inner => run(vm.inner_iter_dyn_mut(p1), &c.h, obs, &mut |v: TensorViewMut<u32>| {
                 fmt_view(&v.view(), Some(offs))
             }),
@@ -435,7 +501,7 @@ fn oracle_items(view: &TensorView<u32>, c: &Case, bad: &mut Option<String>) -> V
                 items.push(x.to_string());
             });
         }
-        Fam::Lanes => {
+        Fam::Lanes | Fam::Lane => {
             let dim = c.p1;
             if shape.iter().all(|&s| s > 0) {
                 let mut outer = full.clone();
@@ -498,6 +564,10 @@ fn replay(mut items: VecDeque<String>, h: &H, obs: &mut Vec<String>) -> bool {
             obs.push(format!("Q[{}]", hcommon::join(items.iter().rev(), ";")));
             true
         }
+        H::Rev => {
+            obs.push(format!("R[{}]", hcommon::join(items.iter().rev(), ";")));
+            true
+        }
         H::Next(r) => {
             obs.push(opt(items.pop_front()));
             replay(items, r, obs)
@@ -542,6 +612,17 @@ fn min_data_len(shape: &[usize], strides: &[usize]) -> usize {
         0
     } else {
         1 + shape.iter().zip(strides).map(|(&s, &st)| (s - 1) * st).sum::<usize>()
+    }
+}
+
+/// The constructor of the iterator kind panics on these parameters.
+fn invalid_param(c: &Case) -> bool {
+    let rank = c.shape.len();
+    match c.fam {
+        Fam::Iter => false,
+        Fam::Lanes | Fam::Lane | Fam::Axis => c.p1 >= rank,
+        Fam::Inner => c.p1 > rank,
+        Fam::Chunks => c.p1 >= rank || c.p2 == 0,
     }
 }
 
@@ -596,11 +677,41 @@ fn one(out: &mut Out, c: &Case, large: bool) {
         Ok(view) => {
             contig = view.is_contiguous();
             let mut bad = None;
-            let items = oracle_items(&view, c, &mut bad);
-            n_items = items.len();
             let mut exp: Vec<String> = vec!["ok".to_string()];
-            if !replay(items.into(), &c.h, &mut exp) {
+            // Constructor panics: invalid dim/axis/inner-dims/chunk size, and the
+            // `assert!(!is_broadcast())` of LanesMut/AxisIterMut/AxisChunksMut (any zero stride in
+            // a non-empty layout, even on a size-1 dim).
+            let invalid = invalid_param(c);
+            let bcast = mutable
+                && matches!(c.fam, Fam::Lanes | Fam::Lane | Fam::Axis | Fam::Chunks)
+                && n_el > 0
+                && c.strides.iter().any(|&st| st == 0);
+            if invalid || bcast {
+                out.bucket(if invalid { "invalid_param_panic" } else { "mut_broadcast_panic" });
                 exp.push("panic".to_string());
+            } else {
+                let mut items = oracle_items(&view, c, &mut bad);
+                if c.fam == Fam::Lane {
+                    // elements of the `p2`-th lane
+                    match items.get(c.p2) {
+                        None => {
+                            exp.push("nolane".to_string());
+                            items = vec![];
+                        }
+                        Some(l) => {
+                            let elems = l.split(':').nth(1).unwrap_or("");
+                            items = if elems.is_empty() {
+                                vec![]
+                            } else {
+                                elems.split(',').map(|e| e.to_string()).collect()
+                            };
+                        }
+                    }
+                }
+                n_items = items.len();
+                if exp.len() == 1 && !replay(items.into(), &c.h, &mut exp) {
+                    exp.push("panic".to_string());
+                }
             }
             if let Some(b) = bad {
                 fail = Some(b);
@@ -737,10 +848,12 @@ fn gen_strides(rng: &mut Rng, sizes: &[usize], allow_overlap: bool) -> (Vec<usiz
     if rng.chance(3, 10) {
         for d in 0..rank {
             if shape[d] == 1 {
-                // Mutable lane/axis/chunk iterators assert `!is_broadcast()`, which is
-                // true for *any* zero stride in a non-empty layout, even on a size-1 dim
-                // (a conservative, safe panic outside C07's claim) — avoid stride 0 there.
-                strides[d] = if allow_overlap { rng.usize_below(21) } else { 1 + rng.usize_below(20) };
+                // Mutable lane/axis/chunk iterators assert `!is_broadcast()`, which is true for
+                // *any* zero stride in a non-empty layout, even on a size-1 dim: such layouts are
+                // accepted by TensorViewMut and make LanesMut/AxisIterMut/AxisChunksMut::new panic
+                // (modelled; the oracle expects the panic).
+                let _ = allow_overlap;
+                strides[d] = rng.usize_below(21);
             }
         }
     }
@@ -787,15 +900,26 @@ fn gen_sizes_large(rng: &mut Rng) -> Vec<usize> {
     sizes
 }
 
-fn gen_terminal(rng: &mut Rng, par_only: bool) -> H {
+fn gen_terminal(rng: &mut Rng, par_only: bool, simple: bool) -> H {
     if par_only {
         return if rng.chance(1, 2) { H::Par } else { H::ParRev };
     }
     let r = rng.below(100);
+    if simple {
+        return if r < 25 {
+            H::Drop
+        } else if r < 65 {
+            H::Fold
+        } else {
+            H::Rev
+        };
+    }
     if r < 30 {
         H::Drop
-    } else if r < 75 {
+    } else if r < 70 {
         H::Fold
+    } else if r < 75 {
+        H::Rev
     } else if r < 87 {
         H::Par
     } else {
@@ -803,10 +927,13 @@ fn gen_terminal(rng: &mut Rng, par_only: bool) -> H {
     }
 }
 
+/// `nest` at or above this value: no `split_at`, no rayon terminals (for `Lane`/`LaneMut`).
+const SIMPLE_NEST: usize = 50;
+
 /// Random history for an iterator of `len` items using at most `budget` non-terminal ops.
 fn gen_h(rng: &mut Rng, len: usize, budget: usize, nest: usize, par_only: bool) -> H {
     if budget == 0 {
-        return gen_terminal(rng, par_only);
+        return gen_terminal(rng, par_only, nest >= SIMPLE_NEST);
     }
     let r = rng.below(100);
     if r < 30 {
@@ -835,13 +962,24 @@ fn gen_h(rng: &mut Rng, len: usize, budget: usize, nest: usize, par_only: bool) 
         let right = gen_h(rng, len.saturating_sub(k), rb, nest + 1, par_only);
         H::Split(k, Box::new(left), Box::new(right))
     } else {
-        gen_terminal(rng, par_only)
+        gen_terminal(rng, par_only, nest >= SIMPLE_NEST)
     }
 }
 
 fn n_items(fam: Fam, shape: &[usize], p1: usize, p2: usize) -> usize {
     let total: usize = shape.iter().product();
+    let rank = shape.len();
+    let invalid = match fam {
+        Fam::Iter => false,
+        Fam::Lanes | Fam::Lane | Fam::Axis => p1 >= rank,
+        Fam::Inner => p1 > rank,
+        Fam::Chunks => p1 >= rank || p2 == 0,
+    };
+    if invalid {
+        return 0;
+    }
     match fam {
+        Fam::Lane => shape[p1],
         Fam::Iter => total,
         Fam::Lanes => {
             if total == 0 {
@@ -857,31 +995,59 @@ fn n_items(fam: Fam, shape: &[usize], p1: usize, p2: usize) -> usize {
 }
 
 fn gen_case(rng: &mut Rng, large: bool) -> Case {
-    const FAMS: [Fam; 5] = [Fam::Iter, Fam::Lanes, Fam::Inner, Fam::Axis, Fam::Chunks];
+    const FAMS: [Fam; 6] = [Fam::Iter, Fam::Lanes, Fam::Lane, Fam::Inner, Fam::Axis, Fam::Chunks];
     let fam = *rng.pick(&FAMS);
     let mutable = rng.chance(1, 2);
-    let min_rank = if matches!(fam, Fam::Lanes | Fam::Axis | Fam::Chunks) { 1 } else { 0 };
+    // ~2.5%: parameters on which the constructor panics (invalid dim / axis / inner dims / chunk 0).
+    let invalid = !large && fam != Fam::Iter && rng.chance(1, 40);
+    let min_rank = if !invalid && matches!(fam, Fam::Lanes | Fam::Lane | Fam::Axis | Fam::Chunks) { 1 } else { 0 };
     let sizes = if large { gen_sizes_large(rng) } else { gen_sizes_small(rng, min_rank) };
     let (shape, strides) = gen_strides(rng, &sizes, !mutable);
     let rank = shape.len();
-    let (p1, p2) = match fam {
-        Fam::Iter => (0, 0),
-        Fam::Lanes | Fam::Axis => (rng.usize_below(rank), 0),
-        Fam::Inner => {
-            if large {
-                (rng.usize_below(rank.min(2)), 0)
-            } else {
-                (rng.usize_below(rank + 1), 0)
+    let (p1, p2) = if invalid {
+        match fam {
+            Fam::Iter => (0, 0),
+            Fam::Lanes | Fam::Axis => (rank + rng.usize_below(3), 0),
+            Fam::Lane => (rank + rng.usize_below(3), rng.usize_below(3)),
+            Fam::Inner => (rank + 1 + rng.usize_below(3), 0),
+            Fam::Chunks => {
+                if rank > 0 && rng.chance(1, 2) {
+                    (rng.usize_below(rank), 0)
+                } else {
+                    (rank + rng.usize_below(3), 1 + rng.usize_below(3))
+                }
             }
         }
-        Fam::Chunks => {
-            let a = rng.usize_below(rank);
-            let c = if rng.chance(1, 10) { 1 + rng.usize_below(8) } else { 1 + rng.usize_below(shape[a].min(4) + 1) };
-            (a, c)
+    } else {
+        match fam {
+            Fam::Iter => (0, 0),
+            Fam::Lanes | Fam::Axis => (rng.usize_below(rank), 0),
+            Fam::Lane => {
+                let d = rng.usize_below(rank);
+                let total: usize = shape.iter().product();
+                let n_lanes = if total == 0 { 0 } else { total / shape[d] };
+                let i = if rng.chance(1, 12) { n_lanes + rng.usize_below(2) } else { rng.usize_below(n_lanes.max(1)) };
+                (d, i)
+            }
+            Fam::Inner => {
+                if large {
+                    (rng.usize_below(rank.min(2)), 0)
+                } else {
+                    (rng.usize_below(rank + 1), 0)
+                }
+            }
+            Fam::Chunks => {
+                let a = rng.usize_below(rank);
+                let c = if rng.chance(1, 10) { 1 + rng.usize_below(8) } else { 1 + rng.usize_below(shape[a].min(4) + 1) };
+                (a, c)
+            }
         }
     };
     let len = n_items(fam, &shape, p1, p2);
-    let h = if large {
+    let h = if fam == Fam::Lane {
+        let budget = rng.usize_below(if large { 4 } else { 11 });
+        gen_h(rng, len, budget, SIMPLE_NEST, false)
+    } else if large {
         let budget = rng.usize_below(4);
         gen_h(rng, len, budget, 0, true)
     } else {
@@ -934,6 +1100,19 @@ fn run_all(args: &Args) {
         "iter 4 1 0 0 | n s4 f f",
         "iter 4 2 0 0 | n s4 f f",
         "lanes 3,1,2 0,7,0 2 0 | b n s1 f Q",
+        "lane 2,3 3,1 0 1 | n t0 l R",
+        "lanemut 2,3 3,1 1 1 | t1 b n f",
+        "lanemut 3,4 1,3 1 2 | t2 t0 t5 l f",
+        "lane 2,3 3,1 0 7 | n .",
+        "lanesmut 1,3 0,1 0 0 | f",
+        "axismut 1,3 0,1 1 0 | n .",
+        "chunksmut 1,3 0,1 1 2 | l .",
+        "itermut 1,3 0,1 0 0 | n b R",
+        "lanes 2,3 3,1 2 0 | f",
+        "inner 2,3 3,1 3 0 | l .",
+        "axis 2,3 3,1 2 0 | .",
+        "chunks 2,3 3,1 0 0 | .",
+        "chunks 2,3 3,1 2 1 | .",
     ] {
         one(&mut out, &parse_case(line), false);
     }
@@ -990,7 +1169,8 @@ fn run_all(args: &Args) {
         one(&mut out, &c, large);
     }
 
+    out.note("lane/lanemut: the p2-th item of lanes(p1)/lanes_mut(p1) is consumed by next/next_back/nth/len histories ending in drop/fold/rev (Lane is not a SplitIterator)");
     out.note("all ten kinds implement IntoParallelIterator with an indexed ParIter, so P and Q are generated for every kind");
     out.note("a mutable kind whose layout TensorViewMut::from_data_with_strides rejects (possible overlap) is run as the immutable kind of the same family");
-    out.finish("one layout + one iterator kind (iter/lanes/inner_iter_dyn/axis_iter/axis_chunks, shared and mutable) + one consumption history tree over next/next_back/nth/len/split_at with terminals drop/fold/rayon collect/rayon rev collect; layouts: rank 0..5, sizes 0..4 (<=200 elements; 2% large up to 5000 elements with short histories ending in P/Q), derived from contiguous by permutation, stepping, outer gaps, broadcasting and arbitrary strides (shared kinds only), size-1 dims with arbitrary stride; hand-written seeds first; thorough tier adds every history of <=4 ops from {n,b,t1,l} then f on every shape of <=3 dims with sizes 0..2 (contiguous and transposed) for iter and lanes(0); ~5% of splits use index len+1 (specified panic); non-trivial = non-empty tensor, >=2 items, >=2 calls; distinct by request text");
+    out.finish("one layout + one iterator kind (iter/lanes/inner_iter_dyn/axis_iter/axis_chunks and a single Lane/LaneMut drained element-wise, shared and mutable) + one consumption history tree over next/next_back/nth/len/split_at with terminals drop/fold/rayon collect/rayon rev collect; layouts: rank 0..5, sizes 0..4 (<=200 elements; 2% large up to 5000 elements with short histories ending in P/Q), derived from contiguous by permutation, stepping, outer gaps, broadcasting and arbitrary strides (shared kinds only), size-1 dims with arbitrary stride; hand-written seeds first; thorough tier adds every history of <=4 ops from {n,b,t1,l} then f on every shape of <=3 dims with sizes 0..2 (contiguous and transposed) for iter and lanes(0); ~5% of splits use index len+1 (specified panic); ~2.5% invalid dim/axis/inner-dims/chunk-0 parameters and size-1 zero-stride dims on mutable lane/axis/chunk kinds (constructor panics, modelled); non-trivial = non-empty tensor, >=2 items, >=2 calls; distinct by request text");
 }
